@@ -704,7 +704,7 @@ impl<R: Reg> Interp<R> {
                 }
                 self.check_entry_query(*w, id, meta, salt, got)?;
             }
-            Op::EntriesQuery { w, e, ts, salt } => {
+            Op::EntriesQuery { w, e, ts, salt, interleave } => {
                 let metas = R::entry_metas();
                 let ei = idx(*e, metas.len());
                 let meta = &metas[ei];
@@ -718,11 +718,18 @@ impl<R: Reg> Interp<R> {
                     .iter()
                     .map(|t| if !s.model.live.is_empty() && *t % 4 != 0 { s.model.live[idx(*t, s.model.live.len())] } else { s.model.issued[idx(*t, s.model.issued.len())] })
                     .collect();
-                let got = R::entries_query(&mut s.real, ei, &ids, salt);
+                let (got, iterated) = R::entries_query(&mut s.real, ei, &ids, salt, *interleave);
                 if let Some(sh) = s.shadow.as_mut() {
-                    R::entries_query(sh, ei, &ids, salt);
+                    R::entries_query(sh, ei, &ids, salt, *interleave);
                 }
                 self.check_entries_query(*w, &ids, meta, salt, got)?;
+                if let Some(rows) = iterated {
+                    // the rows iterated while the entries were in use: views and entry views are
+                    // disjoint, so they must show exactly the matching entities' values
+                    let qm = QueryMeta { name: meta.name, views: meta.views, has_id: false, filter: Flt::None, text: meta.text };
+                    let out = QueryOut { rows, hints: Vec::new() };
+                    self.check_query_ex(*w, &qm, QMode::Fold, None, &out, false, &["C03"])?;
+                }
             }
             Op::Reserve { w, shape, n } => {
                 let shapes = R::shapes();
